@@ -1,6 +1,7 @@
 package rules
 
 import (
+	"go/token"
 	"fmt"
 	"go/types"
 	"sort"
@@ -147,52 +148,128 @@ func c11partition(c *Ctx) {
 	r.Check("C11.partition", "Conn", "writer-private-fields", c.fn("newConn").Pos(), len(wOnly) >= 5, "writer-side only: "+strings.Join(wOnly, ", "))
 }
 
-func c11globals(c *Ctx) {
-	r := c.R
-	for name, mem := range c.P.SPkg.Members {
-		g, ok := mem.(*ssa.Global)
-		if !ok || strings.HasPrefix(name, "init$") {
-			continue
+func c11globals(c *Ctx) { packageStateless(c, "C11.globals") }
+
+// rootGlobal: the package-level variable an address (or a map / slice value
+// loaded from one) is rooted in: g, g.f, g[i], g.f.m (map loaded from a field).
+func rootGlobal(v ssa.Value, depth int) *ssa.Global {
+	if depth > 6 {
+		return nil
+	}
+	switch x := v.(type) {
+	case *ssa.Global:
+		return x
+	case *ssa.FieldAddr:
+		return rootGlobal(x.X, depth+1)
+	case *ssa.IndexAddr:
+		return rootGlobal(x.X, depth+1)
+	case *ssa.UnOp:
+		if x.Op == token.MUL {
+			return rootGlobal(x.X, depth+1)
 		}
-		var writers []string
-		for _, fn := range c.P.FuncList {
-			if fn.Synthetic != "" && fn.Name() == "init" {
-				continue
-			}
-			direct := false
-			for _, b := range fn.Blocks {
-				for _, in := range b.Instrs {
-					if st, isSt := in.(*ssa.Store); isSt {
-						if st.Addr == ssa.Value(g) {
-							direct = true
+	}
+	return nil
+}
+
+// atomicObserved: some atomic read of state rooted in g (Load, Swap,
+// CompareAndSwap, or the result of Add) is used for anything but being returned
+// or stored into a value that is returned (a statistics accessor).
+func atomicObserved(c *Ctx, g *ssa.Global) bool {
+	for _, fn := range c.P.FuncList {
+		for _, b := range fn.Blocks {
+			for _, in := range b.Instrs {
+				call, ok := in.(*ssa.Call)
+				if !ok {
+					continue
+				}
+				f := call.Call.StaticCallee()
+				if f == nil || f.Pkg == nil || f.Pkg.Pkg.Path() != "sync/atomic" || len(call.Call.Args) == 0 || rootGlobal(call.Call.Args[0], 0) != g {
+					continue
+				}
+				if strings.HasPrefix(f.Name(), "Store") {
+					return true // a plain overwrite is not a counter
+				}
+				for _, ref := range *call.Referrers() {
+					switch u := ref.(type) {
+					case *ssa.Return, *ssa.DebugRef:
+					case *ssa.Store:
+						if u.Val != ssa.Value(call) {
+							return true
 						}
-						if ia, isIA := st.Addr.(*ssa.IndexAddr); isIA && ia.X == ssa.Value(g) {
-							direct = true
-						}
-						if ia, isIA := st.Addr.(*ssa.IndexAddr); isIA {
-							if u, isU := ia.X.(*ssa.UnOp); isU && u.X == ssa.Value(g) {
-								direct = true
-							}
-						}
-					}
-					if mu, isMU := in.(*ssa.MapUpdate); isMU {
-						if u, isU := mu.Map.(*ssa.UnOp); isU && u.X == ssa.Value(g) {
-							direct = true
-						}
+					case *ssa.Convert, *ssa.ChangeType:
+					default:
+						return true
 					}
 				}
 			}
-			if direct {
-				writers = append(writers, shortFn(fn))
-			}
-		}
-		if len(writers) > 0 {
-			r.Fail("C11.globals", name, "written-after-init", g.Pos(), "package variable "+name+" is written by "+strings.Join(writers, ", "))
-		} else {
-			r.Pass("C11.globals", name, "written-after-init", g.Pos(), "only the package initialiser assigns it")
 		}
 	}
-	r.Floor("C11.globals", 8)
+	return false
+}
+
+// packageStateless: package-level variables (including fields, elements and
+// maps inside them) are written only by the package initialiser; sync.Pool
+// and mutex operations are calls, not stores.
+func packageStateless(c *Ctx, rule string) {
+	r := c.R
+	writers := map[*ssa.Global][]string{}
+	for _, fn := range c.P.FuncList {
+		if fn.Synthetic != "" && fn.Name() == "init" {
+			continue
+		}
+		seen := map[*ssa.Global]bool{}
+		for _, b := range fn.Blocks {
+			for _, in := range b.Instrs {
+				var g *ssa.Global
+				switch v := in.(type) {
+				case *ssa.Store:
+					g = rootGlobal(v.Addr, 0)
+				case *ssa.MapUpdate:
+					g = rootGlobal(v.Map, 0)
+				case ssa.CallInstruction:
+					// sync/atomic stores and sync.Map writes on package-level state
+					if f := v.Common().StaticCallee(); f != nil && f.Pkg != nil && len(v.Common().Args) > 0 {
+						switch p := f.Pkg.Pkg.Path(); {
+						case p == "sync/atomic" && (strings.HasPrefix(f.Name(), "Store") || strings.HasPrefix(f.Name(), "Add") || strings.HasPrefix(f.Name(), "Swap") || strings.HasPrefix(f.Name(), "CompareAndSwap") || f.Name() == "Store" || f.Name() == "Add"):
+							g = rootGlobal(v.Common().Args[0], 0)
+							// a statistics counter: only ever incremented, its value only reported (never branched on or passed on)
+							if g != nil && strings.HasPrefix(f.Name(), "Add") && len(*v.(ssa.Value).Referrers()) == 0 && !atomicObserved(c, g) {
+								g = nil
+							}
+						case extName(f) == "(*sync.Map).Store" || extName(f) == "(*sync.Map).LoadOrStore" || extName(f) == "(*sync.Map).Delete" || extName(f) == "(*sync.Map).Swap":
+							g = rootGlobal(v.Common().Args[0], 0)
+						}
+					}
+				}
+				if g != nil && g.Pkg == c.P.SPkg && !seen[g] {
+					seen[g] = true
+					writers[g] = append(writers[g], shortFn(fn))
+				}
+			}
+		}
+	}
+	n := 0
+	names := make([]string, 0, len(c.P.SPkg.Members))
+	for name := range c.P.SPkg.Members {
+		names = append(names, name)
+	}
+	sort.Strings(names)
+	for _, name := range names {
+		g, ok := c.P.SPkg.Members[name].(*ssa.Global)
+		if !ok || strings.HasPrefix(name, "init$") {
+			continue
+		}
+		n++
+		if w := writers[g]; len(w) > 0 {
+			sort.Strings(w)
+			r.Fail(rule, name, "written-after-init", g.Pos(), "package variable "+name+" is written by "+strings.Join(w, ", ")+": state shared by all connections and handshakes (the result of one call can depend on earlier calls)")
+		} else {
+			r.Pass(rule, name, "written-after-init", g.Pos(), "only the package initialiser assigns it")
+		}
+	}
+	if n < 8 {
+		r.Fail(rule, "", "floor", token.NoPos, "fewer than 8 package variables found")
+	}
 }
 
 func c11mutex(c *Ctx) {
